@@ -1,12 +1,109 @@
 (* C10/Props.v — property-level theorems only. Tags are read by bin/check. *)
 From Coq Require Import List NArith.
-From BLB Require Import Meta.AMap Meta.Curator C10.Proofs.
+From BLB Require Import Meta.AMap Meta.Curator Meta.CuratorFacts Meta.CuratorInv Meta.Master C10.Proofs C10.ProofsMaster.
 Import ListNotations.
 Open Scope N_scope.
 
-(* [PARTIAL] the model's Apply is a function of state, index and command; the Go-side determinism is what the
-   two-replica monitors of the harness check *)
+(* [FULL] curator, database level, for EVERY list of (index, command) pairs (no hypothesis on commands or indices), every snapshot point j, every earlier point k of the same history as the receiving replica's state, every suffix start sf at or before j: restoring the snapshot of prefix j onto the replica at prefix k (index tag and skip rule of SnapshotRestore) gives the state of prefix j, and applying the commands from position sf on (those up to j a second time) ends in the same database and returns the same results for the commands after j as applying everything once *)
+Theorem replicas_agree_durable :
+  forall (cs : list (N * cmd)) (k j sf : nat) d0 dk rk dj rj dfull rfull,
+    (k <= j)%nat -> (j <= length cs)%nat -> (sf <= j)%nat ->
+    dapply_all d0 (firstn k cs) = Some (dk, rk) ->
+    dapply_all d0 (firstn j cs) = Some (dj, rj) ->
+    dapply_all d0 cs = Some (dfull, rfull) ->
+    drestore dk dj = dj /\
+    exists r', dapply_all dj (skipn sf cs) = Some (dfull, r') /\ skipn (j - sf) r' = skipn j rfull.
+Proof. exact replicas_agree_durable_lemma. Qed.
+Print Assumptions replicas_agree_durable.
+
+(* [FULL] curator, whole replica including the handler's volatile checksum fields and the Fatalf of VerifyChecksum, shape of DESIGN appendix C generalised to arbitrary indices: the restored replica gets through the suffix, ends with the same database and returns the same results for the commands after j. Hypotheses on the history are only that each VerifyChecksum carries the checksum its ChecksumCommand returned and not the handler's initial index, which is how ConsistencyCheck builds it *)
+Theorem replicas_agree :
+  forall (cs : list (N * cmd)) (k j sf : nat) sk rk sj rj sfull rfull,
+    (k <= j)%nat -> (j <= length cs)%nat -> (sf <= j)%nat ->
+    ck_consistent cs -> verify_not_initial cs ->
+    apply_all s_init (firstn k cs) = Some (sk, rk) ->
+    apply_all s_init (firstn j cs) = Some (sj, rj) ->
+    apply_all s_init cs = Some (sfull, rfull) ->
+    exists s' r',
+      apply_all (restore sk (snapshot sj)) (skipn sf cs) = Some (s', r') /\
+      fst s' = fst sfull /\ skipn (j - sf) r' = skipn j rfull.
+Proof. exact replicas_agree_lemma. Qed.
+Print Assumptions replicas_agree.
+
+(* [FULL] curator restart: a replica that applied the first m commands, lost its volatile fields and is handed the commands from any position at or before m+1 again ends with the same database and the same results for the commands after m *)
+Theorem restart_agree :
+  forall (cs : list (N * cmd)) (m sf : nat) sm rm sfull rfull,
+    (m <= length cs)%nat -> (sf <= m)%nat ->
+    ck_consistent cs -> verify_not_initial cs ->
+    apply_all s_init (firstn m cs) = Some (sm, rm) ->
+    apply_all s_init cs = Some (sfull, rfull) ->
+    exists s' r',
+      apply_all (restart sm) (skipn sf cs) = Some (s', r') /\
+      fst s' = fst sfull /\ skipn (m - sf) r' = skipn m rfull.
+Proof. exact restart_agree_lemma. Qed.
+Print Assumptions restart_agree.
+
+(* [FULL] master with the REPAIRED restore (decode into a fresh State, fixes/F7): for every command list, snapshot point j and earlier point k, the replica at k that restores the snapshot of j and applies the commands after j ends in the same state with the same results; harmless = its own last checksum pair is not contradicted by a later ChecksumVerify *)
+Theorem replicas_agree_master :
+  forall (cs : list (N * mcmd)) (k j : nat) sk rk sj rj sfull rfull,
+    (k <= j)%nat -> (j <= length cs)%nat ->
+    mapply_all (m_init, mv_init) (firstn k cs) = Some (sk, rk) ->
+    mapply_all (m_init, mv_init) (firstn j cs) = Some (sj, rj) ->
+    mapply_all (m_init, mv_init) cs = Some (sfull, rfull) ->
+    harmless (snd sk) (skipn j cs) ->
+    exists s' r',
+      mapply_all (restore_fresh sk (msnapshot sj)) (skipn j cs) = Some (s', r') /\
+      fst s' = fst sfull /\ r' = skipn j rfull.
+Proof. exact replicas_agree_master_lemma. Qed.
+Print Assumptions replicas_agree_master.
+
+(* [REFUTED] master with the CURRENT restore (gob decoding into the live struct, restore_merge): SetReadOnly true, SetReadOnly false, RegisterCurator, NewPartition with k = 1 and j = 2 ends in a different state and returns different results, finding F7 *)
+Theorem replicas_agree_master_refuted :
+  exists (cs : list (N * mcmd)) (k j : nat) sk rk sj rj sfull rfull s' r',
+    (k <= j)%nat /\ (j <= length cs)%nat /\
+    mapply_all (m_init, mv_init) (firstn k cs) = Some (sk, rk) /\
+    mapply_all (m_init, mv_init) (firstn j cs) = Some (sj, rj) /\
+    mapply_all (m_init, mv_init) cs = Some (sfull, rfull) /\
+    harmless (snd sk) (skipn j cs) /\
+    mapply_all (restore_merge sk (msnapshot sj)) (skipn j cs) = Some (s', r') /\
+    fst s' <> fst sfull /\ r' <> skipn j rfull.
+Proof. exact replicas_agree_master_refuted_lemma. Qed.
+Print Assumptions replicas_agree_master_refuted.
+
+(* [PARTIAL] curator: in every state reachable from the empty database by ANY command sequence, a command that is submittable relative to that state (ChangeTract index below the current tract count, storage class from the enum, VerifyChecksum consistent with the replica's own checksum) does not kill the replica; partial because submittable is state-relative, the lifting from an index read at an earlier state needs C11 clauses a and b *)
+Theorem no_crash_on_api_commands_partial :
+  forall cs s r i c,
+    apply_all s_init cs = Some (s, r) -> submittable_now s c -> apply s i c <> None.
+Proof.
+  intros cs s r i c H S. destruct (reachable_ok _ _ _ H). apply no_crash_lemma; auto.
+Qed.
+Print Assumptions no_crash_on_api_commands_partial.
+
+(* [FULL] master: only a ChecksumVerify that contradicts the replica's own checksum at that index kills a master replica *)
+Theorem no_crash_on_api_commands_master :
+  forall sv i c,
+    (forall ix ck, c = MCkVerify ix ck -> mv_ckidx (snd sv) = ix -> mv_ck (snd sv) = ck) ->
+    mapply sv i c <> None.
+Proof. exact no_crash_master_lemma. Qed.
+Print Assumptions no_crash_on_api_commands_master.
+
+(* [FULL] Apply is a function of state, index and command, trivial in Gallina, the Go-side determinism is what the replica-versus-replica monitors check *)
 Theorem apply_is_a_function :
   forall s i c r1 r2, apply s i c = r1 -> apply s i c = r2 -> r1 = r2.
 Proof. exact apply_is_a_function_lemma. Qed.
 Print Assumptions apply_is_a_function.
+
+(* non-vacuity: a history with a checksum round, a snapshot after command 6 restored onto the replica at 2,
+   commands re-delivered from position 4 *)
+Definition ex_cs : list (N * cmd) :=
+  [(1, CSetReg 1); (2, CAddPart 1); (4, CCreate 3 (1600000000 * nano) 0 0);
+   (5, CExtend 4294967297 0 [[1; 2; 3]]); (6, CChecksum None None 2 77); (7, CVerify 6 77);
+   (9, CChangeTract 4294967297 0 2 [1; 2; 4]); (10, CDelete 4294967297 (1600000009 * nano))].
+Example ex_replicas_agree_instance :
+  exists sk rk sj rj sfull rfull s' r',
+    apply_all s_init (firstn 2 ex_cs) = Some (sk, rk) /\
+    apply_all s_init (firstn 6 ex_cs) = Some (sj, rj) /\
+    apply_all s_init ex_cs = Some (sfull, rfull) /\
+    apply_all (restore sk (snapshot sj)) (skipn 3 ex_cs) = Some (s', r') /\
+    fst s' = fst sfull /\ skipn 3 r' = skipn 6 rfull /\ d_index (fst sfull) = 10 /\ length (d_blobs (fst sfull)) = 1%nat.
+Proof. do 8 eexists. repeat split; vm_compute; reflexivity. Qed.
